@@ -284,8 +284,10 @@ def _imp_into(a, x, ev):
 
 @specfn("forall")
 def _forall(ev, node):
-    lo, hi, fn = ev.e(node.args[0]), ev.e(node.args[1]), ev.e(node.args[2])
-    return QF(lo, hi, lambda j: vals.truthy_term(fn(j), ev.heap))
+    # the body is instantiated lazily: it must be evaluated against the state as of now
+    snap = SpecEval(ev.ex, ev.st.fork(), ev.env, ev.old_st)
+    lo, hi, fn = ev.e(node.args[0]), ev.e(node.args[1]), snap.e(node.args[2])
+    return QF(lo, hi, lambda j: vals.truthy_term(fn(j), snap.heap))
 
 
 @specfn("iff")
@@ -448,7 +450,8 @@ def _sigma(ev, node):
     """Sigma(lo, hi, lambda j: term): sum over lo <= j < hi (0 when empty)"""
     from .iteration import find_or_make_sum
 
-    lo, hi, fn = ev.e(node.args[0]), ev.e(node.args[1]), ev.e(node.args[2])
+    snap = SpecEval(ev.ex, ev.st.fork(), ev.env, ev.old_st)  # body is unfolded lazily: freeze the state
+    lo, hi, fn = ev.e(node.args[0]), ev.e(node.args[1]), snap.e(node.args[2])
     lo_t, hi_t = to_int_term(lo), to_int_term(hi)
     body = lambda k: to_real_term(fn(k))
     return SFloat(find_or_make_sum(ev.ex, ev.st, body, lo_t, hi_t))
